@@ -202,44 +202,63 @@ theorem attemptOn_fresh (F : Facts) (o : Opts) (a : Attempt) (m : Mgr) :
   cases a.asks F <;> simp
   cases clientGetTlsConfig o <;> simp
 
-/-- every attempt that is made in a history over a fresh-per-call manager behaves as it does alone -/
-theorem runHist_fresh (X : X509) (F : Facts) (o : Opts) (fo : Bool) :
-    ∀ (as : List Attempt) (m : Mgr) (i : Nat) (out : Outcome),
-      (runHist X F true o fo as m)[i]? = some (some out) →
-      ∃ a, as[i]? = some a ∧ out = alone X F o a := by
-  intro as
-  induction as with
-  | nil => intro m i out h; simp [runHist] at h
-  | cons a as ih =>
-    intro m i out h
-    have hf := attemptOn_fresh F o a m
+/-- a config without a session cache: crypto/tls neither reads nor writes the ticket store -/
+theorem sessionWithT_noCache (X : X509) (F : Facts) (hc : F.sessionCache = none) (a : Attempt) (c : Option TlsCfg)
+    (ts : List Ticket) : sessionWithT X F a c ts = (sessionWith X F a c, ts) := by
+  unfold sessionWithT
+  rw [hc]
+
+/-- one step of a history over a new-object-per-call manager without session cache: the attempt made alone, and the
+    rest of the history from the SAME manager state and ticket store -/
+theorem runHist_cons_fresh (X : X509) (F : Facts) (hc : F.sessionCache = none) (fo : Bool) (s : Step) (ss : List Step)
+    (m : Mgr) (ts : List Ticket) :
+    runHist X F true fo (s :: ss) m ts =
+      some (alone X F s.co s.att) ::
+        (if fo && connectsWith X F s.att (alone X F s.co s.att).cfg then ss.map (fun _ => none)
+         else runHist X F true fo ss m ts) := by
+  have hf := attemptOn_fresh F s.co s.att (if s.newMgr then none else m)
+  have hs := sessionWithT_noCache X F hc s.att (attemptOn F true s.co s.att none).1 ts
+  have hm : (if s.newMgr = true then m else if s.newMgr = true then none else m) = m := by
+    cases s.newMgr <;> simp
+  simp only [runHist, hf, hs, alone, Bool.and_not_self, Bool.false_eq_true, if_false, hm]
+  rfl
+
+/-- every attempt that is made in a history - whatever configuration was in force for the earlier attempts, through
+    the one configuration object or through objects of their own, from any state of the object and any ticket store -
+    behaves as it does alone, when the object is new per call and no session cache outlives a config -/
+theorem runHist_fresh (X : X509) (F : Facts) (hc : F.sessionCache = none) (fo : Bool) :
+    ∀ (ss : List Step) (m : Mgr) (ts : List Ticket) (i : Nat) (out : Outcome),
+      (runHist X F true fo ss m ts)[i]? = some (some out) →
+      ∃ s, ss[i]? = some s ∧ out = alone X F s.co s.att := by
+  intro ss
+  induction ss with
+  | nil => intro m ts i out h; simp [runHist] at h
+  | cons s ss ih =>
+    intro m ts i out h
+    rw [runHist_cons_fresh X F hc] at h
     cases i with
     | zero =>
-      simp only [runHist, List.getElem?_cons_zero, Option.some.injEq] at h
-      refine ⟨a, rfl, ?_⟩
-      rw [← h, hf]
-      rfl
+      simp only [List.getElem?_cons_zero, Option.some.injEq] at h
+      exact ⟨s, rfl, h.symm⟩
     | succ i =>
-      simp only [runHist, List.getElem?_cons_succ] at h
+      simp only [List.getElem?_cons_succ] at h
       split at h
       · simp only [List.getElem?_map] at h
-        cases hh : as[i]? <;> simp [hh] at h
-      · rw [hf] at h
-        obtain ⟨b, hb, hout⟩ := ih m i out h
+        cases hh : ss[i]? <;> simp [hh] at h
+      · obtain ⟨b, hb, hout⟩ := ih _ _ i out h
         exact ⟨b, by simpa using hb, hout⟩
 
 /-- without fail-over every attempt is made, and each behaves as it does alone -/
-theorem runHist_seq_fresh (X : X509) (F : Facts) (o : Opts) :
-    ∀ (as : List Attempt) (m : Mgr),
-      runHist X F true o false as m = as.map (fun a => some (alone X F o a)) := by
-  intro as
-  induction as with
-  | nil => intro m; rfl
-  | cons a as ih =>
-    intro m
-    have hf := attemptOn_fresh F o a m
-    simp only [runHist, Bool.false_and, Bool.false_eq_true, if_false, List.map_cons, hf, ih]
-    rfl
+theorem runHist_seq_fresh (X : X509) (F : Facts) (hc : F.sessionCache = none) :
+    ∀ (ss : List Step) (m : Mgr) (ts : List Ticket),
+      runHist X F true false ss m ts = ss.map (fun s => some (alone X F s.co s.att)) := by
+  intro ss
+  induction ss with
+  | nil => intro m ts; rfl
+  | cons s ss ih =>
+    intro m ts
+    rw [runHist_cons_fresh X F hc, ih]
+    simp
 
 /-- a new object that went through its upstream kind carries into the handshake exactly what the
     single-attempt model (`clientCfgFor`, `nameFor`) says -/
